@@ -2,7 +2,7 @@ SPECIFICATION Spec
 CONSTANTS
   Record = FALSE
   Works <- Works23
-  FaultChoices <- FaultsOneT1
+  FaultChoices <- FaultsFew
 
 INVARIANT TypeOK
 INVARIANT HolderOnly
